@@ -68,12 +68,14 @@ func RewriteTemplates(f Flow, catalog *TemplateCatalog, tx func(string) string) 
 		for _, a := range n.Actions() {
 			for _, p := range catalog.Actions[a.Type()] {
 				rewriteTemplates(a, p, txl)
+				rewriteOrphanTranslations(f, a, p, tx)
 			}
 		}
 
 		if n.Router() != nil {
 			for _, p := range catalog.Routers[n.Router().Type()] {
 				rewriteTemplates(n.Router(), p, txl)
+				rewriteOrphanTranslations(f, n.Router(), p, tx)
 			}
 		}
 	}
@@ -84,6 +86,34 @@ func rewriteTemplates[T ~map[string]any](o T, path string, tx func(container, ke
 	path = strings.TrimSuffix(path, "[*]")
 
 	jsonpath.Transform(map[string]any(o), "$"+path, tx)
+}
+
+// Translations are used at run time whether or not the thing they translate has the translated member, e.g. a message
+// without quick replies in the base language can have them in a translation. The transform above only reaches the
+// translations of members that exist, so this rewrites the translations of a member that its container doesn't have.
+func rewriteOrphanTranslations[T ~map[string]any](f Flow, o T, path string, tx func(string) string) {
+	path = strings.TrimSuffix(path, "[*]")
+
+	lastDot := strings.LastIndex(path, ".")
+	parentPath, member := path[:lastDot], path[lastDot+1:]
+	if member == "*" {
+		return
+	}
+
+	check := func(container any) {
+		obj, isObj := container.(map[string]any)
+		if _, hasMember := obj[member]; isObj && !hasMember {
+			if localizableUUID := GetObjectUUID(obj); localizableUUID != "" {
+				rewriteTranslations(f, localizableUUID, member, tx)
+			}
+		}
+	}
+
+	if parentPath == "" {
+		check(map[string]any(o))
+	} else {
+		jsonpath.Visit(map[string]any(o), "$"+parentPath, check)
+	}
 }
 
 func rewriteTranslations(f Flow, itemUUID uuids.UUID, property string, tx func(string) string) {
